@@ -207,7 +207,7 @@ def search(ctx):
                 break
     # public path for encodable fast definitions: frames of encode_ebyte fed to decode_tcp give the message that
     # direct decoding of the encoder's payload gives
-    if not out and ctx.thorough:
+    if not out:
         out += _public_path(ctx, P)
     return out
 
